@@ -151,7 +151,10 @@ func regAlphabet(e *regEnv, maxReg, maxBatch, maxOut int) []ROp {
 			ops = append(ops, ROp{Op: "Sync", T: t, N: k})
 		}
 	}
-	ops = append(ops, ROp{Op: "SyncUnknown"})
+	ops = append(ops, ROp{Op: "SyncUnknown"}, ROp{Op: "SyncUnknown", N: 1})
+	for _, t := range e.strayTables() {
+		ops = append(ops, ROp{Op: "SyncStray", T: t, N: 0}, ROp{Op: "SyncStray", T: t, N: 1})
+	}
 	pk := []int{}
 	for t := range e.pend {
 		pk = append(pk, t)
@@ -176,7 +179,9 @@ func (e *regEnv) apply(op ROp) {
 	case "Sync":
 		e.sync(op.T, op.N, "")
 	case "SyncUnknown":
-		e.sync(e.nextTbl+1, 0, "")
+		e.sync(e.nextTbl+1, op.N, "")
+	case "SyncStray":
+		e.syncStray(op.T, op.N)
 	case "Release":
 		e.release(op.T, "")
 	case "Settle":
